@@ -230,6 +230,11 @@ Next == /\ Len(hist) < MaxSteps
            \/ DoView \/ DoJump \/ DoTimer \/ DoStrategy \/ DoProposal \/ DoProposalDup \/ DoFinalized \/ DoHeightCommitted \/ DoBlockData
 
 
+\* reachability targets (negated: TLC's counterexample is a shortest witness; used to direct the export towards the
+\* transitions out of the timed delay steps, which random simulation rarely reaches)
+Target_PrevoteDelayToCommit == ~\E i \in 1..(Len(timers) - 1) : timers[i].S = "PrevoteDelay" /\ timers[i + 1].S = "CommitWait"
+Target_PrecommitDelayToCommit == ~\E i \in 1..(Len(timers) - 1) : timers[i].S = "PrecommitDelay" /\ timers[i + 1].S = "CommitWait"
+
 \* witnesses of design-level violations, exported for replay on the real code
 EmitCex == (EmitAll /\ ~DesignOK) => PrintT("BEH " \o ToJson(hist))
 
